@@ -502,9 +502,6 @@ func containerKind(e ast.Expr) string {
 	case *ast.ParenExpr:
 		return containerKind(t.X)
 	case *ast.ArrayType:
-		if _, isEll := t.Elt.(*ast.Ellipsis); isEll {
-			return ""
-		}
 		switch {
 		case typeName(t.Elt) == "Metric":
 			return "MetricSlice"
